@@ -14,6 +14,13 @@ import O4.Model.Bytes
 -/
 namespace O4.SC
 
+/-- `Except` values with decidable components can be compared (for `decide`d examples) -/
+instance instDecEqExcept {ε α : Type} [DecidableEq ε] [DecidableEq α] : DecidableEq (Except ε α)
+  | .ok a, .ok b => if h : a = b then isTrue (h ▸ rfl) else isFalse (fun e => h (Except.ok.inj e))
+  | .error a, .error b => if h : a = b then isTrue (h ▸ rfl) else isFalse (fun e => h (Except.error.inj e))
+  | .ok _, .error _ => isFalse (fun e => by cases e)
+  | .error _, .ok _ => isFalse (fun e => by cases e)
+
 def xorAt (ks : Nat → UInt8) : Nat → Bytes → Bytes
   | _, [] => []
   | off, b :: r => (b ^^^ ks off) :: xorAt ks (off + 1) r
